@@ -14,16 +14,17 @@ TFiles == ToSet(Header.files)
 TWorkers == ToSet(Header.workers)
 Ev == SubSeq(Rec, 2, Len(Rec))
 
-VARIABLES result, pool, quitMsgs, wpc, wfile, active, quitNow, chan, rxOpen, col, acc, txMain, main, genres, todo, wrote, l
+VARIABLES result, pool, quitMsgs, seenG, seenW, wpc, wfile, active, quitNow, chan, rxOpen, col, acc, txMain, main, genres, todo, wrote, l
 
 \* Header.out_of: source file -> the output file its items go to; Header.single: -o (TRUE) or -d (FALSE)
 P == INSTANCE Pipeline WITH Files <- TFiles, Workers <- TWorkers, Cap <- Header.cap,
                             ResultKinds <- {"none", "ok", "bad", "err", "panic"},
                             Items <- [f \in TFiles |-> <<>>],
                             OutOf <- [f \in TFiles |-> Header.out_of[f]], SingleFile <- Header.single,
-                            GenKinds <- {"ok", "generr"}
+                            GenKinds <- {"ok", "generr"},
+                            Visits <- [f \in TFiles |-> IF "visits" \in DOMAIN Header THEN Header.visits[f] ELSE 1], Dedupe <- "none"
 
-pvars == <<result, pool, quitMsgs, wpc, wfile, active, quitNow, chan, rxOpen, col, acc, txMain, main, genres, todo, wrote>>
+pvars == <<result, pool, quitMsgs, seenG, seenW, wpc, wfile, active, quitNow, chan, rxOpen, col, acc, txMain, main, genres, todo, wrote>>
 
 \* what the log says about a file's parse result constrains the (otherwise unknown) result function
 LoggedKinds(f) == {Ev[j].detail : j \in {k \in 1..Len(Ev) : Ev[k].ev = "Parsed" /\ Ev[k].file = f}}
@@ -70,14 +71,14 @@ TWrite == /\ (Is("Write") \/ Is("WriteSkip")) /\ Consume
           /\ main = "generate" /\ InTodo(Ev[l].file) /\ genres[Ev[l].file] = "ok"
           /\ wrote' = wrote \cup {Ev[l].file}
           /\ todo' = SelectSeq(todo, LAMBDA x : x # Ev[l].file)
-          /\ UNCHANGED <<result, pool, quitMsgs, wpc, wfile, active, quitNow, chan, rxOpen, col, acc, txMain, main, genres>>
+          /\ UNCHANGED <<result, pool, quitMsgs, seenG, seenW, wpc, wfile, active, quitNow, chan, rxOpen, col, acc, txMain, main, genres>>
 TWritten == /\ Is("Written") /\ Consume /\ Stutter /\ main = "generate" /\ todo = <<>>
 \* the generation stage may end the run early: a backend refuses an output still to do (exit 1), or the main thread panics
 \* (exit 101) after a successful join. P judges those states too.
 GenFails(code) == /\ main = "generate"
                   /\ (code = "exit1" => \E k \in 1..Len(todo) : genres[todo[k]] = "generr")
                   /\ main' = code
-                  /\ UNCHANGED <<result, pool, quitMsgs, wpc, wfile, active, quitNow, chan, rxOpen, col, acc, txMain, genres, todo, wrote>>
+                  /\ UNCHANGED <<result, pool, quitMsgs, seenG, seenW, wpc, wfile, active, quitNow, chan, rxOpen, col, acc, txMain, genres, todo, wrote>>
 TExit == /\ Is("Exit") /\ Consume
          /\ CASE Ev[l].detail = "0" -> main = "generate" /\ P!GenDone /\ main' = "exit0"
               [] Ev[l].detail = "1" -> (main = "joincol" /\ P!JoinCol /\ main' = "exit1") \/ (main = "generate" /\ P!GenDone /\ main' = "exit1")
